@@ -82,9 +82,12 @@ impl StorageImpl {
     pub(crate) fn read(&self, offset: usize, dest: &mut [u8]) {
         match self {
             StorageImpl::Mmap(mmap) => {
-                debug_assert!(offset + dest.len() <= mmap.len());
-                let src = &mmap[offset..offset + dest.len()];
-                dest.copy_from_slice(src);
+                // Like pread on the FD backend, a read that runs past the end of a
+                // (truncated) file leaves the rest of `dest` untouched instead of panicking
+                let end = offset.saturating_add(dest.len()).min(mmap.len());
+                if offset < end {
+                    dest[..end - offset].copy_from_slice(&mmap[offset..end]);
+                }
             }
             StorageImpl::Fd(fd) => fd.read(offset, dest),
         }
@@ -179,7 +182,6 @@ impl SharedMmap {
     }
 
     pub(crate) fn read(&self, offset: usize, dest: &mut [u8]) {
-        debug_assert!(offset + dest.len() <= self.storage.len());
         self.storage.read(offset, dest);
     }
 
